@@ -315,13 +315,17 @@ func abiHostileOne(c *Ctx, m abi.Method, data []byte) []byte {
 		if at+32 > len(body) {
 			at = 0
 		}
-		switch R.Intn(3) {
+		switch R.Intn(5) {
 		case 0:
 			body[at] = 0xff
 		case 1:
 			for k := 0; k < 12; k++ {
 				body[at+k] ^= byte(1 + R.Intn(255))
 			}
+		case 2: // small non-canonical values of the whole word (a bool that is 2, a uint8 that is 256, ...)
+			abiPut(body, at, abiWord([]int{2, 3, 255, 256, 257, 65536, 1 << 32}[R.Intn(7)]))
+		case 3:
+			body[at+31] = byte(2 + R.Intn(254))
 		default:
 			body[at+R.Intn(32)] ^= byte(1 + R.Intn(255))
 		}
